@@ -418,6 +418,18 @@ class NpCalls:
     def np_identity(self, interp, st, args, kwargs, node):
         return self.np_eye(interp, st, args[:1], {k: v for k, v in kwargs.items() if k == 'dtype'}, node)
 
+    def np_ravel_multi_index(self, interp, st, args, kwargs, node):
+        # np.ravel_multi_index((i, j, k), dims): the row-major linear index
+        multi = args[0] if args else None
+        dims = self.arg(args, kwargs, 1, 'dims')
+        d = self.deps_of(args, kwargs)
+        out = AV(ty='ndarray', dtype='int', deps=d, store='fresh')
+        order = kwargs.get('order')
+        c_order = order is None or (has_const(order) and cval(order) == 'C')
+        if multi is not None and multi.elts is not None and dims is not None and dims.elts is not None and len(multi.elts) == len(dims.elts) and c_order:
+            out = out.w(ravel=(list(multi.elts), list(dims.elts[1:])), axes=multi.elts[0].axes if multi.elts[0] is not None else None)
+        return out
+
     def np_ndenumerate(self, interp, st, args, kwargs, node):
         return AV(ty='ndenumerate', of=as_array(args[0]), deps=args[0].deps)
 
